@@ -58,6 +58,9 @@ def oracle(op, a, b=None):
             "cos": lambda: math.cos(a), "tan": lambda: math.tan(a), "asin": lambda: math.asin(a), "acos": lambda: math.acos(a),
             "atan": lambda: math.atan(a), "floor": lambda: float(math.floor(a)), "ceil": lambda: float(math.ceil(a)),
             "abs": lambda: abs(a), "log2": lambda: math.log2(a), "log10": lambda: math.log10(a),
+            "round": lambda: float(math.floor(a + 0.5)), "sign": lambda: float((a > 0) - (a < 0)),
+            "exponent": lambda: float(math.frexp(a)[1]), "mantissa": lambda: math.frexp(a)[0],
+            "deg2rad": lambda: math.radians(a), "rad2deg": lambda: math.degrees(a), "mod": lambda: math.fmod(a, b),
         }[op]()
     except (OverflowError, ValueError, ZeroDivisionError):
         return None
@@ -142,16 +145,19 @@ def run(chk):
     # ---- finiteness: trace with the IEEE / libm oracle
     ops2 = [("+", "{a} + {b}"), ("-", "{a} - {b}"), ("*", "{a} * {b}"), ("/", "{a} / {b}"), ("%", "{a} % {b}"),
             ("pow", "std.pow({a}, {b})"), ("atan2", "std.atan2({a}, {b})"), ("hypot", "std.hypot({a}, {b})"),
-            ("max", "std.max({a}, {b})"), ("min", "std.min({a}, {b})")]
+            ("max", "std.max({a}, {b})"), ("min", "std.min({a}, {b})"), ("mod", "std.mod({a}, {b})")]
     ops1 = [("neg", "-{a}"), ("sqrt", "std.sqrt({a})"), ("exp", "std.exp({a})"), ("log", "std.log({a})"), ("sin", "std.sin({a})"),
             ("cos", "std.cos({a})"), ("tan", "std.tan({a})"), ("asin", "std.asin({a})"), ("acos", "std.acos({a})"),
             ("atan", "std.atan({a})"), ("floor", "std.floor({a})"), ("ceil", "std.ceil({a})"), ("abs", "std.abs({a})"),
-            ("log2", "std.log2({a})"), ("log10", "std.log10({a})")]
+            ("log2", "std.log2({a})"), ("log10", "std.log10({a})"), ("round", "std.round({a})"), ("sign", "std.sign({a})"),
+            ("exponent", "std.exponent({a})"), ("mantissa", "std.mantissa({a})"), ("deg2rad", "std.deg2rad({a})"), ("rad2deg", "std.rad2deg({a})")]
     extra = [0.1, -0.1, 10.0, 709.0, 710.0, -745.0, 1e-10, 123456.789, math.pi, -math.pi / 2]
     vals = B + extra
     tcmds, tmeta = [], []
     for a in vals:
         for op, t in ops1:
+            if op == "round" and (abs(a) >= 2.0 ** 52 or a - math.floor(a) == 0.5):
+                continue        # ties (half away from zero or half up) are not decided by the documentation; huge values are integers
             tcmds.append({"cmd": "eval", "id": len(tcmds), "src": t.format(a=num(a))})
             tmeta.append((op, a, None))
         for b in (vals if thorough else B):
